@@ -41,7 +41,8 @@ class ListenerPool:
         hostnames = {self.flags.hostname, *self.flags.hostnames}
         ports = list(self.flags.ports)
         if not self.flags.unix_socket_path:
-            ports.append(self.flags.port)
+            # Listener for the primary port comes first
+            ports.insert(0, self.flags.port)
         for hostname, port in itertools.product(hostnames, ports):
             self.add(TcpSocketListener, hostname=hostname, port=port)
 
